@@ -12,13 +12,6 @@ import Thanos.Generated.Facts
 -/
 namespace Thanos.ResultsCache
 
-/-- what StepAlign establishes: a positive step dividing both ends -/
-def Aligned (r : Req) : Prop :=
-  0 < r.step ∧ 0 ≤ r.start ∧ r.start ≤ r.stop ∧ r.start % r.step = 0 ∧ r.stop % r.step = 0
-
-/-- the downstream lists its series in strictly ascending label order -/
-def Down.Sorted (D : Down) : Prop := D.ids.Pairwise (· < ·)
-
 /-- C42 at full strength for the code variant `cfg`: every response of every history of
     step-aligned requests (any steps, any split interval, any data) is the direct answer. -/
 def C42_full (cfg : Cfg) : Prop :=
